@@ -23,8 +23,8 @@ structure Msg where
 deriving Repr, DecidableEq
 
 inductive LogEv
-  | I (k : Nat)            -- `Initiate` of state k called
-  | J (k : Nat)            -- … returned
+  | I (k : Nat) (h : Nat)  -- `Initiate` of state k called; h = size of the history visible to it
+  | J (k : Nat) (h : Nat)  -- … returned
   | T (k : Nat) (h : Nat)  -- `CanTransition` of state k returned true, history size h
   | N (k : Nat)            -- `Next` of state k called
   | R (k : Nat) (t id : Nat) -- `Receive` of state k handed message (t, id)
@@ -59,7 +59,7 @@ structure St where
   cancelled : Bool := false
   out : Option Outcome := none
   dropped : Nat := 0
-  log : List LogEv := [.I 0]
+  log : List LogEv := [.I 0 0]
 deriving Repr
 
 def distinctCount (k : Nat) (hist : List Msg) : Nat :=
@@ -76,7 +76,7 @@ def specAt (specs : List Spec) (k : Nat) : Spec := (specs[k]?).getD { need := 0 
 
 def doInitRet (specs : List Spec) (s : St) : St :=
   if s.initRunning then
-    let s := { s with initRunning := false, log := s.log ++ [LogEv.J s.cur] }
+    let s := { s with initRunning := false, log := s.log ++ [LogEv.J s.cur s.hist.length] }
     if (specAt specs s.cur).initErr then { s with sig := some false } else { s with initOk := true }
   else s
 
@@ -107,7 +107,7 @@ def step (specs : List Spec) (s : St) (a : Act) : St :=
           { s with out := some (.errNext s.cur), log := s.log ++ [.N s.cur] }
         else if s.cur + 1 < specs.length then
           { s with cur := s.cur + 1, initRunning := true, initOk := false, sig := none,
-                   log := s.log ++ [.N s.cur, .I (s.cur + 1)] }
+                   log := s.log ++ [.N s.cur, .I (s.cur + 1) s.hist.length] }
         else { s with out := some (.final s.cur), log := s.log ++ [.N s.cur] }
     | .cancel => { s with cancelled := true }
     | .ctxDone => if s.cancelled then { s with out := some .ctx } else s
@@ -118,6 +118,7 @@ def run (specs : List Spec) (acts : List Act) : St := acts.foldl (step specs) {}
 
 inductive Ev
   | msg (wait : Bool) (m : Msg)
+  | flood (m : Msg) (count : Nat)  -- `count` copies of m, each delivered to a quiescent machine
   | release
   | hold
   | unhold
@@ -127,14 +128,22 @@ deriving Repr, DecidableEq
 def nMsgs : List Ev → Nat
   | [] => 0
   | .msg _ _ :: r => nMsgs r + 1
+  | .flood _ c :: r => nMsgs r + c
   | _ :: r => nMsgs r
 
 /-- actions that bring the machine to quiescence whatever its state (disabled ones stutter) -/
 def settleActs (nStates nMsg : Nat) : List Act :=
   (List.replicate (nStates + 1) (List.replicate nMsg Act.recv ++ [.initAuto, .tick, .done])).flatten
 
+/-- settling after one delivery to a quiescent machine (`recvChan` was empty) -/
+def settleOne (nStates : Nat) : List Act :=
+  (List.replicate (nStates + 1) [Act.recv, .initAuto, .tick, .done]).flatten
+
 def expand (nStates nMsg : Nat) : List Ev → List Act
   | [] => [.cancel, .ctxDone]
+  | .flood m c :: r =>
+    settleActs nStates nMsg ++ (List.replicate c (Act.deliver m :: settleOne nStates)).flatten
+      ++ expand nStates nMsg r
   | .msg _ m :: r => .deliver m :: settleActs nStates nMsg ++ expand nStates nMsg r
   | .release :: r => .initRet :: settleActs nStates nMsg ++ expand nStates nMsg r
   | .cancel :: r => .cancel :: .ctxDone :: expand nStates nMsg r
@@ -153,7 +162,7 @@ def deterministic : List Ev → Bool
 
 def initiated : List LogEv → List Nat
   | [] => []
-  | .I k :: r => k :: initiated r
+  | .I k _ :: r => k :: initiated r
   | _ :: r => initiated r
 
 /-! ## monitor: the property as an automaton over the observed call log -/
@@ -171,8 +180,8 @@ deriving Repr
 def monStep (specs : List Spec) (m : Mon) (e : LogEv) : Mon :=
   if !m.ok then m else
   match e with
-  | .I j => if j = m.k && !m.iSeen && !m.over then { m with iSeen := true } else { m with ok := false }
-  | .J j => if j = m.k && m.iSeen && !m.jSeen && !m.over then { m with jSeen := true } else { m with ok := false }
+  | .I j h => if j = m.k && !m.iSeen && !m.over && h = m.hist.length then { m with iSeen := true } else { m with ok := false }
+  | .J j h => if j = m.k && m.iSeen && !m.jSeen && !m.over && h = m.hist.length then { m with jSeen := true } else { m with ok := false }
   | .T j h =>
     if j = m.k && m.jSeen && !m.tSeen && !m.over && !(specAt specs j).initErr
         && h = m.hist.length && can specs j m.hist then { m with tSeen := true }
@@ -209,6 +218,7 @@ def outcomeOk (specs : List Spec) (log : List LogEv) (o : Outcome) : Bool :=
 def deliveredOf : List Ev → List Msg
   | [] => []
   | .msg _ m :: r => m :: deliveredOf r
+  | .flood m c :: r => List.replicate c m ++ deliveredOf r
   | _ :: r => deliveredOf r
 
 end KeepVerif.C15
